@@ -395,6 +395,9 @@ const restartGrace = 25 * time.Millisecond
 func (h *handler) Handle(req map[string]interface{}) interface{} {
 	resp := map[string]interface{}{"i": req["i"]}
 	h.nbeh++
+	if h.nbeh == 40 {
+		defer pprof.StopCPUProfile() // flushes the developer profile, if one was started
+	}
 	base, err := os.MkdirTemp(h.work, "beh_")
 	if err != nil {
 		resp["harness_err"] = err.Error()
